@@ -162,6 +162,58 @@ def writer_round_trip(report, folder):
                              "reads back as %r instead of %r" % (outcome, _short(back), expected))
 
 
+    # a sheet has 16384 columns: a row with exactly that many cells reads back, one cell more is refused (and not cut off)
+    for count in (16384, 16385):
+        path = os.path.join(folder, "wide%d.xlsx" % count)
+        wide = ["c%d" % number for number in range(count)]
+        report.replayed += 1
+        with rowio.XlsxRowWriter(path) as writer:
+            writer.write_row(["before", "x"])
+            try:
+                writer.write_row(wide)
+                outcome = "accepted"
+            except errors.DataFormatError:
+                outcome = "refused"
+            except Exception as error:  # noqa
+                outcome = "%s: %s" % (type(error).__name__, str(error)[:100])
+            writer.write_row(["after", "z"])
+        back = list(rowio.excel_rows(path))
+        if count == 16384:
+            pad = [""] * (count - 2)
+            expected, wanted = [["before", "x"] + pad, wide, ["after", "z"] + pad], "accepted"
+        else:
+            expected, wanted = [["before", "x"], ["after", "z"]], "refused"
+        if outcome != wanted or back != expected:
+            report.violation("c16", {"writer_table": "row of %d cells" % count}, wanted, outcome,
+                             "XlsxRowWriter: a row of %d cells (a sheet has 16384 columns) is %s and the file reads back with rows "
+                             "of %s cells instead of %s" % (count, outcome, [len(r) for r in back], [len(r) for r in expected]))
+        os.remove(path)
+
+
+def tall_sheet(report, folder):
+    """A sheet has 1048576 rows: the row after the last one is refused with a data-format error instead of being dropped."""
+    from cutplace import errors, rowio
+    path = os.path.join(folder, "tall.xlsx")
+    writer = rowio.XlsxRowWriter(path)
+    writer.workbook.constant_memory = True
+    report.replayed += 1
+    try:
+        for number in range(1048576):
+            writer.write_row(["r"])
+        try:
+            writer.write_row(["one too many"])
+            outcome = "accepted"
+        except errors.DataFormatError:
+            outcome = "refused"
+        except Exception as error:  # noqa
+            outcome = "%s: %s" % (type(error).__name__, str(error)[:100])
+    finally:
+        writer._workbook = None  # (the file itself is not needed: nothing is saved)
+    if outcome != "refused":
+        report.violation("c16", {"writer_table": "1048577 rows"}, "refused", outcome,
+                         "XlsxRowWriter: row 1048577 (a sheet has 1048576 rows) is %s" % outcome)
+
+
 def _short(table):
     return [[cell if len(cell) <= 40 else "%s... (%d characters)" % (cell[:20], len(cell)) for cell in row] for row in table]
 
@@ -261,6 +313,7 @@ def run(tier, report):
             raise core.MachineryError("ReadsRequestedSheet = FALSE (D3) gave no counterexample")
         report.notes["expected_counterexamples"] = [{"cfg": "Excel_pinned.cfg", "deviation": "D3 always reads the first sheet"}]
         writer_round_trip(report, folder)
+        tall_sheet(report, folder)
         finite_floats(report, folder)
         if not report.violations:
             for vec in first:
